@@ -2,7 +2,8 @@
 Accounts built by generated single-device histories on both backends; the report must be
 empty on the untouched account; then every content region (stored checksum, encrypted value,
 event payload) of every folder's vault and log is mutated one byte at a time (file bytes on
-the file-system backend, SQL column bytes on SQLite) and the stores are removed one at a time;
+the file-system backend, SQL column bytes on SQLite) and the stores are removed one at a time
+(the vault / log file; on SQLite every folder_secrets / folder_events row of the folder);
 each time the report must contain a failure for that folder and must complete."""
 from vcheck import acct
 
